@@ -1298,7 +1298,7 @@ class Store:
         target_topology = process_store.topology[target_port] + extended_path
         target_node = process_store.outer.get_path(target_topology)
         target = target_node.add_node(source_path, source_node)
-        target_path = target.path_for() + source_path
+        target_path = target.path_for() + source_path[-1:]
         # what glob ports declare for the children of the target store
         # holds for the child that has moved in, as it does for children
         # that are added or generated there
